@@ -260,6 +260,30 @@ func filter(l lset, t types.Type) lset {
 	return stripKB(l)
 }
 
+// depol: a control label that flows into a VALUE loses its polarity — the
+// value depends on the option, which says nothing about the option's value on
+// the paths where the value is used later.
+func depol(l lset) lset {
+	need := false
+	for k := range l {
+		if strings.HasPrefix(k, "opt:") && (strings.HasSuffix(k, "+") || strings.HasSuffix(k, "-")) {
+			need = true
+		}
+	}
+	if !need {
+		return l
+	}
+	r := lset{}
+	for k := range l {
+		if strings.HasPrefix(k, "opt:") && (strings.HasSuffix(k, "+") || strings.HasSuffix(k, "-")) {
+			r[k[:len(k)-1]] = true
+		} else {
+			r[k] = true
+		}
+	}
+	return r
+}
+
 func stripKB(l lset) lset {
 	if !l[lblKey] {
 		return l
@@ -370,7 +394,7 @@ func (it *flowAnalysis) store(c *fctx, in ssa.Instruction, to *aval, v *aval, ct
 			it.changed = true
 			it.lastChange = "L340"
 		}
-		if cl.labels.addAll(ctl) {
+		if cl.labels.addAll(depol(ctl)) {
 			it.changed = true
 			it.lastChange = "L343"
 		}
@@ -394,6 +418,55 @@ func (it *flowAnalysis) store(c *fctx, in ssa.Instruction, to *aval, v *aval, ct
 		ev.labels.addAll(v.labels)
 		ev.ctl.addAll(ctl)
 	}
+}
+
+// structCopy copies cell-wise from the source struct(s) to the destination
+// struct(s). Returns false if the shapes are not addressable (fall back to a flat store).
+func (it *flowAnalysis) structCopy(c *fctx, in ssa.Instruction, to, from *aval, ctl lset) bool {
+	src, dst := targets(from), targets(to)
+	if len(src) == 0 || len(dst) == 0 {
+		return false
+	}
+	for _, s := range src {
+		for k, cl := range s.o.cells {
+			var sub string
+			switch {
+			case s.k == "" && k != "":
+				sub = k
+			case s.k != "" && strings.HasPrefix(k, s.k+"."):
+				sub = k[len(s.k)+1:]
+			case k == s.k:
+				sub = ""
+			default:
+				continue
+			}
+			labs := cl.labels
+			if it.barrier != nil && it.barrier(s.o) {
+				labs = lset{}
+				for l := range cl.labels {
+					if !barrierLabel(l) {
+						labs[l] = true
+					}
+				}
+			}
+			v := &aval{labels: labs, pts: cl.pts, addrs: map[faddr]bool{}}
+			for _, d := range dst {
+				dk := sub
+				if d.k != "" {
+					if sub == "" {
+						dk = d.k
+					} else {
+						dk = d.k + "." + sub
+					}
+				}
+				t := newAval()
+				t.addrs[faddr{d.o, dk}] = true
+				t.labels = to.labels
+				it.store(c, in, t, v, ctl)
+			}
+		}
+	}
+	return true
 }
 
 func (it *flowAnalysis) context(fn *ssa.Function, key string, depth int) *fctx {
@@ -532,7 +605,7 @@ func (it *flowAnalysis) step(c *fctx, b *ssa.BasicBlock, instr ssa.Instruction, 
 		fname := fv.Name()
 		for _, ad := range targets(x) {
 			k := fname
-			if ad.k != "" && ad.k != "*" {
+			if ad.k != "" {
 				k = ad.k + "." + fname
 			}
 			na := faddr{ad.o, k}
@@ -611,9 +684,9 @@ func (it *flowAnalysis) step(c *fctx, b *ssa.BasicBlock, instr ssa.Instruction, 
 			it.merge(a, c.get(it, e))
 		}
 		for _, p := range b.Preds {
-			it.addLabels(a, stripKB(it.blockCtl(c, p)))
+			it.addLabels(a, depol(stripKB(it.blockCtl(c, p))))
 		}
-		it.addLabels(a, stripKB(ctl))
+		it.addLabels(a, depol(stripKB(ctl)))
 	case *ssa.Convert:
 		a := c.get(it, in)
 		x := c.get(it, in.X)
@@ -675,6 +748,14 @@ func (it *flowAnalysis) step(c *fctx, b *ssa.BasicBlock, instr ssa.Instruction, 
 		}
 		it.addLabels(a, x.labels)
 	case *ssa.Store:
+		// whole-struct copy: keep the fields apart
+		if ld, ok := in.Val.(*ssa.UnOp); ok && ld.Op == token.MUL {
+			if _, isStruct := ld.Type().Underlying().(*types.Struct); isStruct {
+				if it.structCopy(c, in, c.get(it, in.Addr), c.get(it, ld.X), stripKB(ctl)) {
+					break
+				}
+			}
+		}
 		it.store(c, in, c.get(it, in.Addr), c.get(it, in.Val), stripKB(ctl))
 	case *ssa.MapUpdate:
 		m := c.get(it, in.Map)
@@ -700,10 +781,10 @@ func (it *flowAnalysis) step(c *fctx, b *ssa.BasicBlock, instr ssa.Instruction, 
 				c.retParts[i] = newAval()
 			}
 			it.merge(c.retParts[i], rv)
-			it.addLabels(c.retParts[i], stripKB(ctl))
+			it.addLabels(c.retParts[i], depol(stripKB(ctl)))
 			it.merge(c.ret, rv)
 		}
-		it.addLabels(c.ret, stripKB(ctl))
+		it.addLabels(c.ret, depol(stripKB(ctl)))
 	case *ssa.MakeClosure:
 		a := c.get(it, in)
 		for _, bnd := range in.Bindings {
@@ -899,7 +980,7 @@ func (it *flowAnalysis) call(c *fctx, site ssa.CallInstruction, ctl lset) {
 				walk(ad.o, 0)
 			}
 		}
-		lab.addAll(stripKB(ctl))
+		lab.addAll(depol(stripKB(ctl)))
 		name := "dyn"
 		if callee != nil {
 			name = callee.String()
